@@ -260,6 +260,15 @@ def build_site(site):
                         "shiftable": False,
                         "geom": (a1, a2, so, eo),
                     }
+        # a reference skip over the first variant, the second one covered behind the skip
+        if D >= 8 + len(v1.ref):
+            sl, el = v1.pos - 25, v1.pos - 3
+            sr, er = v1.pos + len(v1.ref) + 3, f2 + 12
+            qr, cr = synth.hap_read(seq, [v2], [a2], sr, er)
+            n[0] += 1
+            nm = f"q{n[0]}"
+            alns.append({"name": nm, "chrom": "chrA", "start": sl, "cigar": [(0, el - sl), (3, sr - el)] + cr, "seq": seq[sl:el] + qr, "rg": "rg1"})
+            exp[nm] = {"v": {1: a2}, "none": [0], "cover": {1: True}, "clean": True, "style": "N-over-first", "shiftable": False, "geom": (a1, a2)}
         # a read covering only one of the two
         nm, _ = add(seq, variants, [a1, a2], v1.pos - 20, v1.pos + len(v1.ref) + (D - len(v1.ref)) // 2 if D > 2 else v1.pos + len(v1.ref))
         if D > 2 * len(v1.ref) + 2:
